@@ -139,6 +139,12 @@ func (os *ObjectStream) parseHeader() error {
 	headerData := os.decoded[:os.first]
 	parser := NewParser(bytes.NewReader(headerData))
 
+	// Each entry of the header takes at least four bytes ("1 0 "), so /N cannot
+	// exceed what the header has room for; it must not size an allocation unchecked.
+	if os.n > len(headerData)/4+1 {
+		return fmt.Errorf("object stream /N (%d) exceeds what its %d-byte header can hold", os.n, len(headerData))
+	}
+
 	os.offsets = make([]objectStreamOffset, 0, os.n)
 
 	for i := 0; i < os.n; i++ {
